@@ -1027,6 +1027,15 @@ fn gen_value(rng: &mut Rng, var: usize) -> String {
         4 => &["truecolor", "24bit", ""],
         _ => &["", "true"],
     };
+    if rng.chance(1, 16) {
+        // a value that only starts or ends with a special word
+        let w = *rng.pick(listed);
+        return match rng.below(3) {
+            0 => format!("{w}-emacs-ansi"),
+            1 => format!("x-{w}"),
+            _ => format!("{w}0"),
+        };
+    }
     if rng.chance(3, 4) {
         (*rng.pick(listed)).to_string()
     } else if !harvested().is_empty() && rng.chance(1, 4) {
@@ -1279,6 +1288,20 @@ fn sweep(child: &mut Child, seed: u64) -> (u64, Option<(Vec<EOp>, EViolation)>) 
     // global Auto: the decision for every stream kind and every probe against the model
     let mut words: Vec<String> = VALUES.iter().map(|s| s.to_string()).collect();
     words.extend(harvested().iter().cloned());
+    // derived words: a value that merely starts with, ends with or contains a special word is not
+    // that word (`dumb-emacs-ansi`, `xterm-dumb`, `not-truecolor`, `10`, `Dumb`)
+    let base: Vec<String> = words.iter().filter(|w| !w.is_empty() && w.len() <= 16 && w.is_ascii() && !w.contains(' ') && !w.contains('\n')).cloned().collect();
+    for w in &base {
+        let mut cap = w.clone();
+        if let Some(c) = cap.get_mut(0..1) {
+            c.make_ascii_uppercase();
+        }
+        for d in [format!("{w}-emacs-ansi"), format!("x-{w}"), format!("{w}{w}"), format!("{w}0"), cap] {
+            if !words.contains(&d) {
+                words.push(d);
+            }
+        }
+    }
     for var in 0..VARS.len() {
         for w in &words {
             for tty in [true, false] {
